@@ -55,10 +55,26 @@ pub enum Which {
 /// A share of the runs gets a long horizon with a long dark period (back-off behaviour over tens of seconds).
 pub fn strategy(max_horizon_s: u16) -> impl Strategy<Value = Case> {
     prop_oneof![
-        5 => strategy_h(max_horizon_s, false),
-        1 => strategy_h(max_horizon_s.max(170), true),
-        1 => flapping(max_horizon_s.max(170)),
+        10 => strategy_h(max_horizon_s, false),
+        2 => strategy_h(max_horizon_s.max(170), true),
+        2 => flapping(max_horizon_s.max(170)),
+        1 => total_outage(),
     ]
+}
+
+/// Every uplink (also link 0) is black-holed over the same period, long enough for the all-links-failed timer
+/// (10 s after the last link timed out) to expire; then every path comes back.
+fn total_outage() -> impl Strategy<Value = Case> {
+    (strategy_h(120, true), 30u16..150, 130u16..400, 0u8..3).prop_map(|(mut c, start, dur, tsel)| {
+        c.faults.clear();
+        c.forgets.clear();
+        c.timeout = tsel; // 5000 / 1000 / 1001 ms
+        for l in 0..c.n_links {
+            c.faults.push(Fault { link: l, start_ds: start + l as u16, dur_ds: dur, kind: 0 });
+        }
+        c.horizon_s = (start + dur) / 10 + 60;
+        c
+    })
 }
 
 /// A link that flaps: dark periods of 12..20 s separated by gaps just long enough for one re-registration,
@@ -209,6 +225,11 @@ impl Receiver {
         out
     }
 
+    /// true while the receiver answers REG_ERR to every REG2 (it refuses; a sender can only retry)
+    pub fn refusing(&self) -> bool {
+        self.answer_err
+    }
+
     pub fn forget(&mut self, err: bool) {
         self.group = None;
         self.members.clear();
@@ -279,6 +300,7 @@ pub fn check(case: &Case, obs: &mut Obs, which: Which, ctx: &Ctx) -> CheckResult
     let mut forget_events: Vec<(u64, bool)> = case.forgets.iter().map(|(t, e)| (t0 + *t as u64 * 100, *e)).collect();
     forget_events.sort();
     let mut ids_equal_since: Option<u64> = None;
+    let mut last_forget: u64 = t0;
     let mut not_member_since: Vec<Option<u64>> = vec![None; n];
     // datagrams accepted before the session was established go through pre-registration forwarding (outside C04)
     let mut first_established_counter: Option<u32> = None;
@@ -399,6 +421,7 @@ pub fn check(case: &Case, obs: &mut Obs, which: Which, ctx: &Ctx) -> CheckResult
         }
         if forget_events.first().is_some_and(|(t, _)| *t <= now) {
             let (_, e) = forget_events.remove(0);
+            last_forget = now;
             rx.forget(e);
             obs.class(if e { "receiver-forgot-group-reg-err" } else { "receiver-forgot-group-reg-ngp" });
             continue;
@@ -478,9 +501,9 @@ pub fn check(case: &Case, obs: &mut Obs, which: Which, ctx: &Ctx) -> CheckResult
             let hk_ok = sh.housekeeping();
             after_step!("housekeeping", socks, conn_before, true);
             if !hk_ok {
-                // every uplink failed for > 10 s: production exits here (as the C sender does)
-                obs.class("global-timeout-exit");
-                break;
+                // every uplink failed for > 10 s: handle_housekeeping reports an error; the real loop logs it and
+                // goes on, so does the simulation (retries must continue and the links must come back)
+                obs.class("all-links-failed-error");
             }
             // bounded recovery: the receiver knows the group the sender has adopted
             let ids_equal = rx.group.is_some_and(|g| &g == sh.st.reg.srtla_id());
@@ -492,6 +515,25 @@ pub fn check(case: &Case, obs: &mut Obs, which: Which, ctx: &Ctx) -> CheckResult
                 ids_equal_since = None;
             }
             rx.expire(now);
+            // the receiver answers REG_NGP (it has no group, or another one): the sender has to create a new group.
+            // Bound: detection (timeout) + 30 s, counted from the last forget event / the end of every link's faults.
+            if which == Which::C08 && !ids_equal && !rx.refusing() && forget_events.is_empty() {
+                let since = last_forget.max((0..n).map(&clear_after).max().unwrap_or(t0));
+                let undisturbed = break_events.is_empty() && broken.iter().all(|b| !*b) && now >= since;
+                let bound = timeout + 30_000 + 2 * max_hk_gap;
+                if undisturbed && now - since > bound {
+                    return crate::rt::viol(
+                        "group-not-re-created",
+                        format!(
+                            "{} ms after the receiver lost the group (it answers REG_NGP, no fault is active) the sender still has no group the receiver knows (bound {} ms = timeout + 30 s; pending REG1 on {:?}, connected links {})",
+                            now - since,
+                            bound,
+                            sh.st.reg.pending_reg2_idx(),
+                            sh.st.conns.iter().filter(|c| c.connected).count()
+                        ),
+                    );
+                }
+            }
             if which == Which::C08
                 && let Some(eq_since) = ids_equal_since
             {
